@@ -1,4 +1,5 @@
-"""C27 - PoW light client keeps the heaviest valid chain (header_sync/eth SyncBlockHeader, appendHeader2Main, RestructChain).
+"""C27 - PoW light client keeps the heaviest valid chain (header_sync/eth SyncBlockHeader, appendHeader2Main, RestructChain;
+header_sync/btc commitHeader, GetCommonAncestor, ReIndexHeaderHeight).
 spec/PoWChain.tla (+PoWProp.tla monitor, TracePoWChain.tla); driver harness/cmd/vd-eth (pow-replay, pow-record).
   1. P-MC      : PropC27 (+ idempotence) on the model, every labelled tree <= N headers, every submission order.
   2. P-REPLAY  : TLC prints every labelled tree with N headers (= every tree shape x every parent-first order) x every
@@ -59,10 +60,13 @@ def judge(ctx, events, what, replay_extra, limit=6):
         rejected += 1
         scen = scenario_of(rest, idx)
         bad = rest[idx - 1]
-        ctx.violation(CLAUSE_KEY.get(clause, "eth:" + clause),
+        key = CLAUSE_KEY.get(clause, "eth:" + clause)
+        if replay_extra.get("chain") == "btc":
+            key = "btc:" + key[4:]
+        ctx.violation(key,
                       {"clause": clause, "source": what, "call": bad.get("note"), "ids": bad.get("ids"), "err": bad.get("err"),
                        "observed": bad.get("obs"), "scenario_length": len(scen)},
-                      replay=dict(replay_extra, kind="pow-history", events=scen))
+                      replay=dict(replay_extra, kind="pow-history", behaviour=(scen[0].get("note") or None), events=scen))
         j = idx
         while j < len(rest) and rest[j].get("op") != "reset":
             j += 1
@@ -70,15 +74,40 @@ def judge(ctx, events, what, replay_extra, limit=6):
     return rejected
 
 
+def replay(ctx, b):
+    """bin/vcheck C27 quick --replay <file>: re-run one recorded case on the code and judge it again."""
+    d = json.load(open(ctx.replay))["replay"]
+    if d.get("behaviour"):
+        out = ctx.driver(b, ["btc-replay" if d.get("chain") == "btc" else "pow-replay"], input_obj=[json.loads(d["behaviour"])])
+        mism = [o for o in out if o.get("mismatch")]
+        ev = mism[0]["events"] if mism else []
+        ctx.note("replayed behaviour: %s" % ("differs from the model" if mism else "matches the model"))
+    else:
+        ev = [e for e in ctx.driver(b, ["pow-record", "40", "14"], env={"VERIF_SEED": str(d.get("seed", ctx.seed))}) if "op" in e]
+    if ev:
+        judge(ctx, ev, "replay", {"chain": d.get("chain", "eth"), "seed": d.get("seed", ctx.seed)})
+    ctx.sample({"replayed": ctx.replay})
+    ctx.cov["evaluations"] = len(ev)
+    ctx.cov["distinct_nontrivial"] = len(ev)
+    return ctx.finish(rule="single-case replay")
+
+
 def run(ctx):
     q = ctx.quick
     b = ctx.build("vd-eth")
+    if ctx.replay:
+        return replay(ctx, b)
     ctx.mc("PoWChain", "PoWChain_mc_quick.cfg" if q else "PoWChain_mc_thorough.cfg", timeout=2400)
+    if not q:
+        ctx.mc("PoWChain", "PoWChain_mc_btc.cfg", timeout=2400)
 
     # (cfg, least number of behaviours expected); sh*: 7 slowest vs 6 fast blocks (shorter-but-heavier fork, head one lower)
     # and 10 vs 8 (head two lower), as a sample of interleavings (s) or all of them
-    gens = [("PoWChain_gen_n5a2.cfg", 3840), ("PoWChain_gen_n4a3.cfg", 1944), ("PoWChain_gen_sh76s.cfg", 10), ("PoWChain_gen_sh108s.cfg", 13)] if q else \
-           [("PoWChain_gen_n5a3.cfg", 29160), ("PoWChain_gen_n6a2.cfg", 46080), ("PoWChain_gen_shortheavy.cfg", 1716), ("PoWChain_gen_sh108s.cfg", 13)]
+    # btc_*: the Bitcoin header chain (header_sync/btc, regtest parameters) under the same model with Rule = "btc"
+    # quickmix = all trees of 5 headers x steps {-1,1} + of 4 headers x {-1,0,1} + the two samples, in one TLC run
+    gens = [("PoWChain_gen_quickmix.cfg", 3840 + 1944 + 10 + 13), ("PoWChain_gen_btc_n4a3.cfg", 1944)] if q else \
+           [("PoWChain_gen_n5a3.cfg", 29160), ("PoWChain_gen_n6a2.cfg", 46080), ("PoWChain_gen_shortheavy.cfg", 1716), ("PoWChain_gen_sh108s.cfg", 13),
+            ("PoWChain_gen_btc_n5a3.cfg", 29160)]
     total_beh = total_calls = distinct = reorgs = drift = 0
     downs = 0
     for cfg, least in gens:
@@ -93,7 +122,7 @@ def run(ctx):
         path = ctx.out + "/beh-" + cfg + ".lines"
         with open(path, "w") as f:
             f.write("\n".join(lines) + "\n")
-        out = ctx.driver(b, ["pow-replay"], input_path=path, timeout=3000)
+        out = ctx.driver(b, ["btc-replay" if "_btc_" in cfg else "pow-replay"], input_path=path, timeout=3000)
         summ = [o for o in out if o.get("summary")][0]
         if summ["behaviours"] != len(lines):
             ctx.fail("driver replayed %d of %d behaviours" % (summ["behaviours"], len(lines)))
@@ -110,7 +139,7 @@ def run(ctx):
             ev = []
             for m in mism[:40]:
                 ev += m["events"]
-            rej = judge(ctx, ev, "replay of %s" % cfg, {"cfg": cfg, "first_difference": {k: mism[0][k] for k in ("kind", "step", "detail")}})
+            rej = judge(ctx, ev, "replay of %s" % cfg, {"cfg": cfg, "chain": "btc" if "_btc_" in cfg else "eth", "first_difference": {k: mism[0][k] for k in ("kind", "step", "detail")}})
             if rej == 0:
                 # the code left the model's prediction but every clause of the property holds in every observed state
                 drift += summ["mismatches"]
@@ -146,7 +175,7 @@ def run(ctx):
                      "because the real difficulty rule stays on (steps 1, 0, -1, -3, -99)",
                      "one sandbox is shared by many worlds, each under its own chain id",
                      "a tie in total difficulty may be resolved either way (the property asks for a head of maximal total difficulty)",
-                     "BTC header chain (header_sync/btc) is not covered"])
+                     "BTC header chain: regtest parameters (a header chooses its bits; the retarget rule calcRequiredWork is not exercised), works 2..32, headers really mined; total work read through the hook btc.VerifTotalWork"])
 
 
 def _unescape(ln):
